@@ -568,8 +568,8 @@ Definition rotate_digits_left (w N : Z) (fuel : nat) (self : list Z) (n : Z) : r
   match t3' with
   | Exited (out, i) =>
       t5' <- usub N n ;;
-      let i := t5' in
-      let init_index := i in
+      let init_index := t5' in
+      let i := init_index in
       t8' <- while_loop (R := list Z) fuel
         (fun '(out, i) => (i <? N))
         (fun '(out, i) =>
